@@ -10,9 +10,15 @@ Every `unwrap!`, `unreachable!`, slice index is a `Res.panic` in the model, ever
 runs on fuel and reports `Res.panic .fuel` when the fuel is exhausted, so that
 "never panics / always terminates" is a theorem about the model (Props/C16), not an assumption.
 
-The model follows the tree *after* the three `fix:` commits of C16 (checked length arithmetic,
-fused iterators, `container_len` within the slice); `Old.len` keeps the previous arithmetic so that
-the failing witness stays a theorem.
+The one integer that is **not** a `usize`: the nesting counter `level` of `container_next` /
+`container_value_len` is an `i32` (literal fallback) and is modelled as a checked `i32` (`addI32`, `subI32`,
+`I32LIM = 2^31`); this is why the no-panic theorems carry `len < 2^31`.
+
+The model follows the tree *after* the `fix:` commits of C16 (checked length arithmetic, fused iterators,
+`container_len` within the slice, `tlv_iter` nesting, `bytes_iter` 64-bit strings, `TLVWrite::tlv` refusing
+strings that do not fit their length field, `Display` / `Debug` capped at `MAX_FMT_DEPTH` nested containers);
+`Old.elemLen` and `Old.fmtOf` keep the previous arithmetic / recursion so that the failing witnesses stay
+theorems, and `encode` is the truncating writer (`write` the fixed, fallible one).
 Import-free (apart from the generated constants) so that the driver links as an executable.
 -/
 namespace Tlv
@@ -33,6 +39,7 @@ deriving DecidableEq, Repr, Inhabited
 
 inductive PanicKind
   | overflow | unwrap | unreachable | index | fuel
+  | explicit  -- a literal `panic!(..)` in the code
 deriving DecidableEq, Repr, Inhabited
 
 /-- Outcome of a call into the code: value, `Err(code)`, or a panic / non-termination. -/
@@ -70,6 +77,17 @@ def addUsize (a b : Nat) : Res Nat := if a + b < USIZE then .ok (a + b) else .pa
 def subUsize (a b : Nat) : Res Nat := if b ≤ a then .ok (a - b) else .panic .overflow
 /-- `a.checked_add(b).ok_or(ErrorCode::TLVTypeMismatch)` -/
 def checkedAdd (a b : Nat) : Res Nat := if a + b < USIZE then .ok (a + b) else .err .mismatch
+
+/-- `i32::MAX + 1`.  The nesting counter `level` of `container_next` / `container_value_len`
+(`let mut level = 1;` with no other constraint on its type) is an `i32` by integer-literal fallback. -/
+def I32LIM : Nat := 2 ^ 31
+/-- unchecked `a + b` on a non-negative `i32` (overflow-checks build: panic past `i32::MAX`) -/
+def addI32 (a b : Nat) : Res Nat := if a + b < I32LIM then .ok (a + b) else .panic .overflow
+/-- unchecked `a - b` on a non-negative `i32` whose result stays non-negative.  (With `b > a` the Rust
+`i32` would become negative without a panic; the only caller runs under the loop guard `level > 0`
+and subtracts 1, so that branch is unreachable — the model reports it as a panic, which only makes
+the no-panic theorems stronger.) -/
+def subI32 (a b : Nat) : Res Nat := if b ≤ a then .ok (a - b) else .panic .overflow
 
 /-- `slice.get(n..)` -/
 def getFrom (bs : Bytes) (n : Nat) : Option Bytes := if n ≤ bs.length then some (bs.drop n) else none
@@ -267,12 +285,17 @@ def elemLen (bs : Bytes) : Res Nat := do
 end Old
 
 /-- the level bookkeeping shared by `container_next` and `container_value_len`:
-`if end { confirm; level -= 1 } else if is_container { level += 1 }` -/
+`if end { confirm; level -= 1 } else if is_container { level += 1 }`.
+`level` is an **`i32`** in the Rust (read.rs: `let mut level = 1; while level > 0 { … }`), so the
+increment is a checked `i32` addition: the overflow-checks build panics when `level` would pass
+`i32::MAX = 2^31 − 1` (`Tlv.levelStep_overflow`; whole run: `C16.level_overflow_reachable` in Props/C16), the release build wraps to a
+negative value and leaves the loop.  The no-panic theorems therefore carry the hypothesis
+`len < 2^31`: every container start costs at least one byte, so the counter stays below `2^31`. -/
 def levelStep (c : Control) (level : Nat) : Res Nat :=
   if c.vt.isContainerEnd then do
     c.confirmContainerEnd
-    subUsize level 1
-  else if c.vt.isContainer then addUsize level 1
+    subI32 level 1
+  else if c.vt.isContainer then addI32 level 1
   else .ok level
 
 /-- the `while level > 0` loop of `container_next` -/
@@ -635,6 +658,24 @@ def Prim.wf : Prim → Prop
   | .str w b => b.length < 2 ^ (8 * w.bytes)
   | .null => True
 
+/-- what the Rust types of `TLVValue` enforce by themselves: integers in the range of their width
+(`S8(i8)` …), float bit patterns of their size, `Utf*l(&str)` valid UTF-8 -/
+def Prim.typed : Prim → Prop
+  | .sint w i => -(2 ^ (8 * w.bytes - 1) : Nat) ≤ i ∧ i < (2 ^ (8 * w.bytes - 1) : Nat)
+  | .uint w n => n < 2 ^ (8 * w.bytes)
+  | .f32 b => b < 2 ^ 32
+  | .f64 b => b < 2 ^ 64
+  | .utf8 _ b => validUtf8 b = true
+  | _ => True
+
+/-- the one thing the types do **not** enforce: the length of a string fits the length field of the
+element type it is written with (`Str8l(&[u8])` can hold a 300-byte slice).  This is the check
+`TLVWrite::tlv` performs since the fix `C16-writer-length-truncation` (`uN::try_from(a.len())`). -/
+def Prim.lenFits : Prim → Bool
+  | .utf8 w b => decide (b.length < 2 ^ (8 * w.bytes))
+  | .str w b => decide (b.length < 2 ^ (8 * w.bytes))
+  | _ => true
+
 /-- `TLVWrite::u16/u32/u64`: the smallest width that holds the value -/
 def Prim.mkUint (n : Nat) : Prim :=
   if n ≤ 0xff then .uint .w1 n else if n ≤ 0xffff then .uint .w2 n
@@ -683,6 +724,72 @@ def encode : Value → Bytes
 def encodes : Values → Bytes
   | .nil => []
   | .cons v vs => encode v ++ encodes vs
+end
+
+/-- `TLVWrite::tlv(tag, value)` **after the fix**: a string whose length does not fit the length field
+of its element type is refused with `InvalidData` before any byte of that element is written (the model has no buffer
+state: bytes written earlier — enclosing `start_*` headers, siblings — stay in the buffer); everything else is
+written as `header ++ payload`.  (Before the fix — and still in the infallible iterator writer
+`TLV::bytes_iter` / `TLVValueIter` — the length is cast with `as u8/u16/u32`: that is `encode`, whose
+`leBytes w.bytes b.length` truncates the same way.) -/
+def writeLeaf (t : Tag) (p : Prim) : Res Bytes :=
+  if p.lenFits then .ok (header t p.vt ++ p.payload) else .err .invalidData
+
+mutual
+/-- a whole tree through the fallible writer: `tlv` for the leaves, `start_*` … `end_container`
+around the children; the first refused leaf aborts (`?`) -/
+def write : Value → Res Bytes
+  | .leaf t p => writeLeaf t p
+  | .cont t k cs => do
+    let inner ← writes cs
+    pure (header t (.cont k) ++ (inner ++ [endByte]))
+def writes : Values → Res Bytes
+  | .nil => pure []
+  | .cons v vs => do
+    let a ← write v
+    let b ← writes vs
+    pure (a ++ b)
+end
+
+/-! ### writer entry points that take a caller-side length (not expressible as a `Value`) -/
+
+/-- `TLVWrite::stri(tag, len, data)` (`isUtf8 = false`) / `utf8i` (`true`): the element type is chosen from
+the **caller-supplied** `len`, `len` is written as the length field, then whatever bytes the iterator yields
+are appended.  The code never compares the two (its doc: "the length … must match the number of bytes returned
+by the provided iterator, or else the generated TLV stream will be invalid") and `utf8i` never validates UTF-8.
+`str(tag, data)` / `utf8(tag, s)` are `stri(tag, data.len(), data)` / `utf8i(tag, s.len(), s.bytes())`. -/
+def writeStri (isUtf8 : Bool) (t : Tag) (len : Nat) (data : Bytes) : Bytes :=
+  header t (if isUtf8 then .utf8 (lenWidth len) else .str (lenWidth len)) ++
+    (leBytes (lenWidth len).bytes len ++ data)
+
+/-- `WriteBuf::str_cb` (`isUtf8 = false`) / `utf8_cb` (`true`): a `Str16l` / `Utf16l` header is reserved, the
+callback fills the free space and returns how many bytes it wrote (`data` = those bytes); `finalize_len_header`
+rewrites the header to the 1-byte form for `≤ 255`, patches the 2-byte length for `≤ 65535` and otherwise runs
+into a literal **`panic!("Callback wrote more data than the reserved header can encode")`**.  UTF-8 is never
+validated.  (`NoSpace` and a callback error are not modelled.) -/
+def writeStrCb (isUtf8 : Bool) (t : Tag) (data : Bytes) : Res Bytes :=
+  if data.length ≤ 255 then
+    .ok (header t (if isUtf8 then .utf8 .w1 else .str .w1) ++ (leBytes 1 data.length ++ data))
+  else if data.length ≤ 65535 then
+    .ok (header t (if isUtf8 then .utf8 .w2 else .str .w2) ++ (leBytes 2 data.length ++ data))
+  else .panic .explicit
+
+mutual
+def Value.typed : Value → Prop
+  | .leaf t p => t.wf ∧ p.typed
+  | .cont t _ cs => t.wf ∧ cs.typed
+def Values.typed : Values → Prop
+  | .nil => True
+  | .cons v vs => v.typed ∧ vs.typed
+end
+
+mutual
+def Value.lenFits : Value → Bool
+  | .leaf _ p => p.lenFits
+  | .cont _ _ cs => cs.lenFits
+def Values.lenFits : Values → Bool
+  | .nil => true
+  | .cons v vs => v.lenFits && vs.lenFits
 end
 
 mutual
@@ -802,6 +909,84 @@ def reencodeIter (bs : Bytes) : Res Bytes :=
       let inner ← tlvConcat (tlvElements seq)
       pure (tlvBytes (t, v) ++ inner ++ [endByte])
     | _ => pure (tlvBytes (t, v))
+
+/-! ## The remaining public accessors of `TLVElement` -/
+
+/-- `TLVElement::tlv`: `tag()` then `value()` -/
+def tlvOf (bs : Bytes) : Res (Tag × TVal) := do
+  let t ← tagOf bs
+  let v ← valueOf bs
+  pure (t, v)
+
+/-- `TLVElement::total_len`: the public wrapper of `container_len` -/
+def totalLen (bs : Bytes) : Res Nat := containerLen bs
+
+/-- `TLVElement::is_empty` (`non_empty` and `raw_data` are equally total functions of the slice) -/
+def isEmptyOf (bs : Bytes) : Bool := bs.isEmpty
+
+/-- the children loop of `TLVElement::fmt`: `for elem in container.iter() { elem.map_err(fmt::Error)?.fmt(..)? }` -/
+def fmtSeq (f : Bytes → Res Unit) : List (Res Bytes) → Res Unit
+  | [] => pure ()
+  | r :: rest => do
+    let e ← r
+    f e
+    fmtSeq f rest
+
+namespace Old
+/-- control flow of `TLVElement::fmt` **before** the fix `C16-fmt-recursion-stack`: `tag()`, `value()`, and for
+`value_type().is_container()` — start **or end** — `container()?` and the **recursive** formatting of every
+child with no depth cap; the model runs it on fuel (`.panic .fuel` = a recursion deeper than the fuel). -/
+def fmtOf : Nat → Bytes → Res Unit
+  | 0, _ => .panic .fuel
+  | d + 1, bs => do
+    let _ ← tagOf bs
+    let v ← valueOf bs
+    if v.vt.isContainer then do
+      let seq ← containerOf bs
+      fmtSeq (fmtOf d) (elements seq)
+      match v.vt with
+      | .cont _ => pure ()
+      | _ => .panic .unreachable
+    else pure ()
+end Old
+
+/-- what `TLVElement::fmt` does with the children of a container it does **not** descend into (depth cap
+reached): `if let Some(elem) = elems.next() { elem.map_err(fmt::Error)?; write!(f, " ... ") }` -/
+def fmtFirst : List (Res Bytes) → Res Unit
+  | [] => pure ()
+  | r :: _ => do
+    let _ ← r
+    pure ()
+
+/-- one call of `TLVElement::fmt` (the body of `Display` and `Debug`; the `core::fmt::Write` sink is assumed
+not to fail, every error of the reader becomes `fmt::Error`): `tag()`, `value()`, and for
+`value_type().is_container()` — start **or end** — `container()?`, then `kids` on the children, then
+`match value_type { Struct | Array | List => …, _ => unreachable!() }` -/
+def fmtBody (kids : List (Res Bytes) → Res Unit) (bs : Bytes) : Res Unit := do
+  let _ ← tagOf bs
+  let v ← valueOf bs
+  if v.vt.isContainer then do
+    let seq ← containerOf bs
+    kids (elements seq)
+    match v.vt with
+    | .cont _ => pure ()
+    | _ => .panic .unreachable
+  else pure ()
+
+/-- `TLVElement::fmt(depth, f)` after the fix, indexed by the **remaining** depth budget
+`rem = MAX_FMT_DEPTH − depth`: with budget left the children are formatted recursively with one less, at
+`depth ≥ MAX_FMT_DEPTH` (`rem = 0`) the container is not entered (`fmtFirst`).  Structural recursion on the
+budget: no fuel, and at most `rem + 1` nested calls whatever the input. -/
+def fmtAt : Nat → Bytes → Res Unit
+  | 0 => fmtBody fmtFirst
+  | rem + 1 => fmtBody (fmtSeq (fmtAt rem))
+
+/-- `Display` / `Debug` of a `TLVElement`: `self.fmt(0, f)` -/
+def fmtOf (bs : Bytes) : Res Unit := fmtAt Consts.tlvMaxFmtDepth bs
+
+/-- `TLVSequence::fmt(0, f)` (the body of `Display` / `Debug` of `TLVSequence` and of `TLVSequenceIter`):
+`for elem in self.iter() { elem.map_err(fmt::Error)?.fmt(depth, f)? }` -/
+def seqFmtOf (seq : Bytes) : Res Unit := fmtSeq (fmtAt Consts.tlvMaxFmtDepth) (elements seq)
 
 /-! ## Re-encoding a decoded element (`ToTLV for TLVElement`) -/
 
